@@ -728,10 +728,15 @@ class PrefixedSubAppResource(PrefixResource):
         router = self._app.router
         for resource in router.resources():
             # Since the canonical path of a resource is about
-            # to change, we need to unindex it and then reindex
-            router.unindex_resource(resource)
+            # to change, we need to unindex it and then reindex.
+            # Matched sub-app resources are never indexed
+            # (see register_resource), so they are only prefixed.
+            indexed = not isinstance(resource, MatchedSubAppResource)
+            if indexed:
+                router.unindex_resource(resource)
             resource.add_prefix(prefix)
-            router.index_resource(resource)
+            if indexed:
+                router.index_resource(resource)
 
     def url_for(self, *args: str, **kwargs: str) -> URL:
         raise RuntimeError(".url_for() is not supported by sub-application root")
